@@ -1,2 +1,24 @@
 import SpoxModel.Props.C08
 /-! `#print axioms` for every property theorem of C08; parsed by ./check. -/
+#print axioms C08.bind_spec
+#print axioms C08.bind_slot
+#print axioms C08.bind_missing_typeerror
+#print axioms C08.bind_duplicate_typeerror
+#print axioms C08.bind_unknown_typeerror
+#print axioms C08.bind_surplus_counterexample
+#print axioms C08.call_type_check
+#print axioms C08.rename_injective
+#print axioms C08.rename_injective_repeated
+#print axioms C08.rename_clash_counterexample
+#print axioms C08.rename_fixed_example
+#print axioms C08.inline_sem
+#print axioms C08.toOnnx_nodes
+#print axioms C08.inline_sem_scope
+#print axioms C08.inline_passthrough_counterexample
+#print axioms C08.inline_passthrough_fixed
+#print axioms C08.functions_refused
+#print axioms C08.output_types_declared
+#print axioms C08.copyFirst_pure
+#print axioms C08.generated_copy_first
+#print axioms C08.normalise_pure
+#print axioms C08.no_copy_counterexample
